@@ -147,6 +147,7 @@ func main() {
 	}
 	obls = append(obls, lobls...)
 	results := e.Discharge(obls, *smtDir, time.Duration(*timeout)*time.Second, *jobs, *all, e.Defs, axTerms)
+	e.AttachReplays(results, *smtDir+"_replay")
 	rep.Obligations = results
 	for _, r := range results {
 		rep.SolverSecs += r.Secs
